@@ -1257,8 +1257,48 @@ fn dig_entry_points(c: &Case, xml: &str) -> String {
     }
 }
 
+/// A look-alike of a document: the same labels and source lengths, one digit of every test source changed.  It is
+/// loaded, and each of its tests too, right before the real document (results dropped): loading is a function of the
+/// document at hand, whatever was loaded before in this process.
+fn dig_decoy(xml: &str) -> Option<String> {
+    let mut out = String::with_capacity(xml.len());
+    let mut rest = xml;
+    let mut changed = false;
+    while let Some(i) = rest.find("<dataString>") {
+        let (head, tail) = rest.split_at(i);
+        out.push_str(head);
+        let end = tail.find("</dataString>").unwrap_or(tail.len());
+        let (body, after) = tail.split_at(end);
+        match body.rfind(|ch: char| ch.is_ascii_digit()) {
+            // not inside a character reference such as &#10;
+            Some(k) if !body[..k].ends_with('#') && !body[..k].ends_with("#x") && !body[..k].ends_with("#1") => {
+                let mut bytes = body.as_bytes().to_vec();
+                bytes[k] = if bytes[k] == b'1' { b'0' } else { b'1' };
+                out.push_str(std::str::from_utf8(&bytes).ok()?);
+                changed = true;
+            }
+            _ => out.push_str(body),
+        }
+        rest = after;
+    }
+    out.push_str(rest);
+    if changed { Some(out) } else { None }
+}
+
 fn run_dig(c: &Case, buf: &mut String) {
     let xml = c.xml.clone();
+    if xml.len() < 200_000 {
+        if let Some(decoy) = dig_decoy(&xml) {
+            let _ = catch_unwind(AssertUnwindSafe(|| {
+                if let Ok(f) = dig::File::parse(&decoy) {
+                    for i in 0..f.test_cases.len() {
+                        let _ = f.load_test(i);
+                        let _ = f.load_test_by_name(&f.test_cases[i].name);
+                    }
+                }
+            }));
+        }
+    }
     out(buf, &dig_entry_points(c, &xml));
     match catch_unwind(AssertUnwindSafe(|| dig::File::parse(&xml))) {
         Err(p) => out(buf, &format!("DIG panic # {}", panic_msg(&p))),
